@@ -13,8 +13,9 @@ Oracle.  For a class ``C`` of the toy universe the true series truncated at orde
 (brute force, no library code).  An equation ``Eq(lhs, rhs)`` emitted by the library is evaluated with every applied
 function ``F_i(arg_0, arg_1, ...)`` replaced by ``S_{class i}`` composed with the arguments, in an exact truncated
 power-series ring implemented here (coefficients ``int`` / ``Fraction``; monomials x^d * na^i * nb^j * na2^k * nb2^l;
-truncation in x only; ``Add``, ``Mul``, integer ``Pow``, division by a series whose lowest x-coefficient is a non-zero
-number).  The difference ``lhs - rhs`` must have only zero coefficients up to x-degree ``N`` (``N - q`` when the
+truncation in x only; ``Add``, ``Mul``, integer ``Pow``, division by a series whose lowest x-coefficient is a single
+non-zero monomial ``c * na^i * nb^j * ...`` -- exponents of the statistics may then become negative, the ring is the
+ring of Laurent polynomials in the statistics, an integral domain, so an identity holds iff the residual vanishes).  The difference ``lhs - rhs`` must have only zero coefficients up to x-degree ``N`` (``N - q`` when the
 equation divides by series of total x-order ``q``: every element of the ring is exact up to a precision that
 ``Add`` / ``Mul`` / the inverse of a unit keep and that dividing by ``x^q`` lowers by ``q``).  The ring is cross-checked against ``sympy.expand`` on a seeded
 sample of the equations (``oracle-self-consistency``).
@@ -34,6 +35,12 @@ does not occur on the left (a child statistic no parent statistic maps to) under
 The universe's "addstat" pack (``AddStat``: the child tracks a statistic without a parent preimage) is excluded: the
 ``DisjointUnion`` docstring requires every child variable to come from a parent variable, so that equation is outside
 the documented strategy contract (sampling is not supported there either, see C08).
+
+Family: the searches of C07 plus the packs of ``LOCAL_PACKS``: C08's packs with non-identity parameter maps (children
+dropping statistics, factors with local statistic names, non-atom factor first / between two atoms) and
+``quotient-stat`` (``PrependStatFactory``: a class that is only ever a factor of products whose parent and atom track
+a statistic -- the atom under another name -- that the class itself does not track; only the forest database
+specifies it, through a Quotient rule whose counted child has fewer statistics than its siblings).
 """
 import json
 import multiprocessing
@@ -46,11 +53,15 @@ import deal
 import sympy
 from sympy.core.function import AppliedUndef
 
+from comb_spec_searcher import StrategyPack
 from comb_spec_searcher.exception import IncorrectGeneratingFunctionError
 from comb_spec_searcher.strategies.constructor import CartesianProduct
 from comb_spec_searcher.strategies.rule import EquivalencePathRule, ReverseRule, Rule, VerificationRule
 from harness.c07 import ALL_PACKS, build_spec, family_jobs, family_starts, spec_key
+from harness.c08 import LOCAL_PACKS as C08_LOCAL_PACKS
+from harness.c08 import LOCAL_STARTS as C08_LOCAL_STARTS
 from harness.universe import *  # noqa: F401,F403
+from harness.universe import class_from_repr
 
 NPROC = 16
 COUNTS = Counter()
@@ -136,11 +147,13 @@ class Ring:
             raise Unsupported("division by zero series")
         q = min(d for d, _ in b)
         low = [(k, v) for k, v in b.items() if k[0] == q]
-        if len(low) != 1 or low[0][0][1] != ZERO_E:
-            raise Unsupported("lowest x-coefficient of a denominator is not a number")
+        if len(low) != 1:
+            raise Unsupported("lowest x-coefficient of a denominator is not a monomial")
+        e0 = low[0][0][1]
         c0 = Fraction(low[0][1])
         self.loss += q
-        unit = {(d - q, e): v for (d, e), v in b.items()}
+        # b = c0 * x^q * stats^e0 * unit, unit = 1 + (terms of x-order >= 1, possibly negative exponents)
+        unit = {(d - q, tuple(a - z for a, z in zip(e, e0))): v for (d, e), v in b.items()}
         w = self.scale(self.add(self.const(c0), self.scale(unit, -1)), 1 / c0)  # 1 - unit/c0, x-order >= 1
         inv, term = self.const(Fraction(1)), self.const(Fraction(1))
         for _ in range(self.N):
@@ -148,7 +161,10 @@ class Ring:
             if not term:
                 break
             inv = self.add(inv, term)
-        return self.scale(inv, 1 / c0), q
+        inv = self.scale(inv, 1 / c0)
+        if e0 != ZERO_E:
+            inv = {(d, tuple(a - z for a, z in zip(e, e0))): v for (d, e), v in inv.items()}
+        return inv, q
 
     def shift_down(self, a, q):
         if any(d < q for d, _ in a):
@@ -463,6 +479,33 @@ def closed_form(spec, info):
 # --------------------------------------------------------------------------------------------------------------
 
 
+LOCAL_PACKS = dict(C08_LOCAL_PACKS)
+LOCAL_PACKS["quotient-stat"] = lambda: StrategyPack(
+    initial_strats=[], inferral_strats=[], expansion_strats=[[PrependStatFactory()]],
+    ver_strats=[StatAtomStrategy(), LongPrefixVerified(k=2)], name="quotient-stat")
+C20_PACKS = dict(ALL_PACKS)
+C20_PACKS.update(LOCAL_PACKS)
+# one-letter prefixes that start a pattern (the class is a factor of the class with one more letter in front), some
+# with a letter that never occurs
+LOCAL_STARTS = list(C08_LOCAL_STARTS) + [
+    ("a", ["ab"], "ab", ()), ("b", ["ba"], "ab", ()), ("a", ["ab"], "ab", ("na",)), ("b", ["ba", "bb"], "ab", ()),
+    ("a", ["aa", "ab"], "ab", ("na",)), ("b", ["bb"], "ab", ("nb",)), ("a", ["aba", "ab"], "ab", ()),
+]
+
+
+def local_jobs(tier, seed):
+    starts = list(family_starts(tier, seed))
+    starts += [c for c in (Av(p, patts, al, False, st) for p, patts, al, st in LOCAL_STARTS) if c not in set(starts)]
+    return [{"start": repr(start), "pack": pack, "db": db} for start in starts for pack in LOCAL_PACKS
+            for db in RULEDBS]
+
+
+def build_spec(job):  # noqa: F811  (the C07 function, over the enlarged table of packs)
+    start = class_from_repr(job["start"])
+    spec = find_spec(start, C20_PACKS[job["pack"]](), RULEDBS[job["db"]](), max_expansion_time=20)
+    return start, spec
+
+
 def _fresh(cross):
     return {"viols": [], "evals": 0, "found": False, "samples": [], "placeholders": 0, "unsupported": 0,
             "checked": 0, "upto": 99, "kinds": Counter(), "cross": cross, "genf_refused": Counter(),
@@ -541,6 +584,7 @@ def _dedupe(viols):
 NO_EQUATION_PACKS = ("addstat",)
 
 # packs whose verification strategy computes its generating function by searching and solving (slow in sympy)
+# (the local pack "quotient-stat" is not in this set: its few specifications are all checked)
 SLOW_PACKS = {name for name, make in ALL_PACKS.items()
               if any(isinstance(s, LongPrefixVerified) for s in make().ver_strats)}
 
@@ -550,7 +594,7 @@ def run(tier, seed):
     rng = random.Random(seed)
     starts = family_starts(tier, seed)
     _validate_dp(starts)
-    jobs = [j for j in family_jobs(tier, seed) if j["pack"] not in NO_EQUATION_PACKS]
+    jobs = [j for j in family_jobs(tier, seed) if j["pack"] not in NO_EQUATION_PACKS] + local_jobs(tier, seed)
     ctx = multiprocessing.get_context("fork")
     with ctx.Pool(NPROC) as pool:
         keys = pool.map(_key_worker, jobs, chunksize=8)
@@ -585,8 +629,10 @@ def run(tier, seed):
         samples.extend(r["samples"])
     step = max(1, len(samples) // 6)
     return {
-        "bound": (f"family without the packs {NO_EQUATION_PACKS} (a child statistic without a parent preimage is outside "
-                  f"the documented DisjointUnion contract): "
+        "bound": (f"family of C07 without the packs {NO_EQUATION_PACKS} (a child statistic without a parent preimage is "
+                  f"outside the documented DisjointUnion contract), plus the local packs {sorted(LOCAL_PACKS)} on the "
+                  f"same start classes and {len(LOCAL_STARTS)} more (prefix of length 3; one-letter prefixes that are "
+                  f"factors of a longer class, with and without a letter that never occurs): "
                   f"{len(jobs)} searches -> {len(chosen)} distinct specifications, {len(tasks)} checked (a seeded part of "
                   f"those whose verification strategy solves a system per equation); {checked} equations evaluated "
                   f"coefficient by coefficient to x-degree {order} (lowest degree reached after divisions: {upto}), all "
